@@ -881,8 +881,10 @@ static void cmd_fdr(int nt, char **t)
 {
 	int depth = (int)L(t[1]); int caps[256]; int nc = parse_caps(t[2], caps); size_t n; unsigned char *b = unhex(t[5], &n); int fd = scratch_fd();
 	struct json_object *o, *m; const char *le; struct json_tokener *tok; char *ex; ssize_t w; size_t off = 0; (void)nt;
-	while (off < n && (w = write(fd, b + off, n - off)) > 0) off += (size_t)w;
-	lseek(fd, 0, SEEK_SET);
+	/* optional 6th argument: the document does not start at offset 0 of the file -- <prefix> bytes that are no JSON come first and the descriptor is handed over positioned behind them */
+	{ long prefix = nt > 6 ? L(t[6]) : 0, i; for (i = 0; i < prefix; i++) if (write(fd, i % 2 ? "}" : "]", 1) != 1) break;
+	  while (off < n && (w = write(fd, b + off, n - off)) > 0) off += (size_t)w;
+	  lseek(fd, (off_t)prefix, SEEK_SET); }
 	_json_c_set_last_err("%s", "");
 	vf_io_script(caps, nc, (int)L(t[3]), (int)L(t[4]));
 	o = depth == -1 ? json_object_from_fd(fd) : json_object_from_fd_ex(fd, depth);
